@@ -61,6 +61,22 @@ BIG_TEXTS = [
 ]
 
 
+def long_texts():
+    """size/depth boundaries: sums and products far longer (and deeper) than any generated one"""
+    vs = "abcdfghjklmnopqrstuvwxyz"
+    out = []
+    for n in (33, 65, 101, 130):
+        out.append(" + ".join(f"{(i % 7) + 1}{vs[i % 24]}" for i in range(n)))
+        out.append(" + ".join(f"{(i % 5) + 1}x" if i % 3 else f"{vs[i % 24]}^2" for i in range(n)))
+    out.append(" * ".join(vs[i % 24] for i in range(40)))
+    out.append(" * ".join(f"{(i % 3) + 2}x" for i in range(34)))
+    out.append(" - ".join(f"{i + 1}y" for i in range(70)))
+    out.append("(" * 30 + "x" + " + 1)" * 30)
+    out.append("-(" * 30 + "x" + ")" * 30)
+    out.append(" + ".join(f"{i + 1}x" for i in range(101)) + " = " + " + ".join(f"{i + 2}y" for i in range(33)))
+    return out
+
+
 def required_apply_arms(minimum=3, rules=None):
     req = {}
     for label, tags in ARMS.items():
@@ -101,15 +117,29 @@ def problem_texts(cfg, rng, n):
 def start_texts(cfg, rng, n_random, equations=0.25):
     """(source, text, hints) stream: W1 corpus, W2 problems, W3/W4 random and templates."""
     corp = WT.corpus()
+    # deterministic lists: partitioned among the shards (every text is driven by exactly one shard;
+    # the guaranteed arm texts by two, so that a single slow shard cannot starve a required arm)
+    k = 0
     for s in ARM_TEXTS:
-        yield "arm-text", s, []
+        k += 1
+        if cfg.mine(k) or cfg.mine(k + 1):
+            yield "arm-text", s, []
     for s in EDGE_TEXTS:
-        yield "edge-text", s, []
+        k += 1
+        if cfg.mine(k):
+            yield "edge-text", s, []
     for s in BIG_TEXTS:
-        yield "big-text", s, []
+        k += 1
+        if cfg.mine(k):
+            yield "big-text", s, []
     for s in ARM_TEXTS:
         for v in WE.substituted(s):
-            yield "near-text", v, []
+            k += 1
+            if cfg.mine(k):
+                yield "near-text", v, []
+    for i, s in enumerate(long_texts()):
+        if cfg.mine(i):
+            yield "long-text", s, []
     for i, s in enumerate(corp):
         if cfg.mine(i):
             yield "corpus", s, []
@@ -130,7 +160,7 @@ def parse_start(text, allow_big=False):
     except Exception:
         return None
     sh = S.shadow(root)
-    if (D.too_big(sh) and not allow_big) or S.has_nonfinite(sh):
+    if (D.too_big(sh) and not allow_big and not D.is_long(sh)) or S.has_nonfinite(sh):
         return None
     return root
 
